@@ -601,7 +601,12 @@ impl<'a> Sel<'a> {
     pub fn fin_recv<T, R: AsReceiver<T>>(r: &R) -> Result<T, RecvError> {
         let rx = r.as_receiver();
         let res = match rx.ch.do_try_recv() {
-            Ok(m) => Ok(m),
+            Ok(m) => {
+                if !matches!(rx.ch.flavor, Flavor::Tick { .. }) {
+                    rt::maybe_stall_after_recv();
+                }
+                Ok(m)
+            }
             Err(TryRecvError::Disconnected) => Err(RecvError),
             Err(TryRecvError::Empty) => unreachable!("select: recv arm chosen but channel empty"),
         };
